@@ -13,7 +13,8 @@ Require Import List String Ascii NArith ZArith Bool.
 Import ListNotations.
 From MptV Require Import C20.LayoutTypes C20.LayoutConv C20.Gen_Layout C20.LayoutModel C20.LayoutSpec
   C20.LayoutLemmas C20.LayoutAbs C20.LayoutFields C20.LayoutColour C20.LayoutRefineAxis C20.LayoutRefine
-  C20.LayoutRefineGraph C20.LayoutMatch C20.LayoutTables C20.LayoutGet C20.LayoutSetProp C20.LayoutCxx C20.LayoutHistory.
+  C20.LayoutRefineGraph C20.LayoutMatch C20.LayoutTables C20.LayoutGet C20.LayoutSetProp C20.LayoutCxx C20.LayoutHistory
+  C20.LayoutCxxModel C20.LayoutCxxSpec C20.LayoutCxxProofs.
 Local Open Scope Z_scope.
 
 (* every set / reset / assignment step is the specification's step on the listed properties *)
@@ -169,6 +170,45 @@ Proof. exact inv_cxx_axis. Qed.
 Theorem C20_cxx_new_defaults : forall n, abs (cxx_new n) = defaults (kind_no n).
 Proof. exact cxx_new_defaults. Qed.
 
+(* ---- mpt++ classes, own logic (LayoutCxxModel.v): constructors with arguments, clone / struct copy, direct setters, an
+   object as value of a named property, convert(), graph items / bind, class layout ---- *)
+(* every step of the mpt++ harness language acts on the listed properties of both objects as LayoutCxxSpec.xsstep says *)
+Theorem C20_cxx_step_refines : forall st p,
+  same_kind (xa st) (xb st) -> inv (xa st) -> inv (xb st) -> xop_ok p ->
+  fst (xsstep (kind_of (xa st)) (abs (xa st), abs (xb st)) p) =
+  (abs (xa (fst (xstep st p))), abs (xb (fst (xstep st p)))).
+Proof. exact xstep_refines. Qed.
+Theorem C20_cxx_construct_inv : forall k arg, inv (cxx_construct k arg).
+Proof. exact inv_construct. Qed.
+Theorem C20_cxx_axis_ctor_props : forall f, abs (cxx_new_axis f) = defaults KAxis.
+Proof. exact construct_axis_props. Qed.
+Theorem C20_cxx_world_ctor_props : forall c,
+  abs (cxx_new_world c) = aput (defaults KWorld) (bs "cycles") (PInt (if c <? 0 then 1 else c)).
+Proof. exact construct_world_props. Qed.
+Theorem C20_cxx_direct_setters : forall o w t r o', wf_text t -> cxx_cset o w t = Some (r, o') ->
+  exists p, cset_prop (kind_of o) w = Some p /\ abs o' = aput (abs o) p (PStr (nonempty t)) /\ r = true.
+Proof. exact cset_refines. Qed.
+Theorem C20_cxx_named_object_source : forall o other c n, same_kind o other -> inv o ->
+  sset (kind_of o) (abs o) (abs other) (Some (c :: n)) (xs_named_other (kind_of o) (abs other)) =
+  (sok (fst (obj_set o (Some (c :: n)) (Some (cxx_named_source other)))),
+   abs (snd (obj_set o (Some (c :: n)) (Some (cxx_named_source other))))).
+Proof. exact named_other_refines. Qed.
+(* layout::graph::bind: a missing item restores the bound lists; a name list binds exactly the named items in order *)
+Theorem C20_cxx_bind_failure : forall g x r x', graph_bind g x = (r, x') -> r < 0 -> x' = x.
+Proof. exact bind_failure. Qed.
+Theorem C20_cxx_bind_axes_named : forall g x x' names, graph_bind g x = (1, x') -> gr_axes g = Some names ->
+  map fst (gx_axes x') = map Some (words names) /\
+  Forall (fun nv => exists w, fst nv = Some w /\ find_axis (gx_items x) w = Some (snd nv)) (gx_axes x').
+Proof. exact bind_axes_named. Qed.
+(* class layout (as patched by docs/c20_proposed_layout_object.diff): set / reset / NULL-name assignment *)
+Theorem C20_layout_step_refines : forall (a b : layoutobj) (tb : bool) n s, lay_src_ok s ->
+  let src : option source := match s with XReset => None | XText t o => Some (SText t o) | XValue v => Some (SValue v) | XOther => None end in
+  let R := layout_set (if tb then b else a) n src in
+  fst (lsstep (labs a, labs b) (XBase (OpSet tb n s))) =
+  (if tb then (labs a, labs (snd R)) else (labs (snd R), labs b)) /\
+  snd (lsstep (labs a, labs b) (XBase (OpSet tb n s))) = XsTok (if sok (fst R) then TK else TR).
+Proof. exact layout_step_refines. Qed.
+
 (* ---- non-vacuity: concrete objects and sources meet the hypotheses and exercise non-trivial branches ---- *)
 Definition ex_orc := mktorc (mkforc 3 false 1080033280%N) (mkforc 3 false 4615063718147915776%N) no_forc.   (* "3.5" *)
 Definition ex_axis := snd (axis_set (snd (axis_set def_axis (Some (bs "title")) (Some (SText (Some (bs "T")) no_torc))))
@@ -248,6 +288,29 @@ Example C20_ex_history :
          OpSp true 48 (Some (bs "sub")) (XText (Some (bs "2")) no_torc); OpSet false None XOther]) = 4%nat.
 Proof. split; [repeat constructor|reflexivity]. Qed.
 
+Example C20_ex_cxx_ops :
+  (let st := mkxs (cxx_construct 2 None) (cxx_construct 2 None) gx_empty gx_empty in
+   let st1 := fst (xstep st (XBase (OpSet true (Some (bs "color")) (XText (Some (bs "red")) no_torc)))) in
+   let st2 := fst (xstep st1 (XBase (OpSet false (Some (bs "color")) XOther))) in
+   aget (abs (xa st2)) (bs "color")) = Some (PCol 255 255 0 0)
+  /\ cxx_convert (cxx_construct 4 (Some (-5))) QLattr = (CrMe, CpLattr def_lattr)
+  /\ aget (abs (cxx_construct 4 (Some (-5)))) (bs "cycles") = Some (PInt 1)
+  /\ xop_ok (XCset false WValue (Some (bs "v"))).
+Proof. repeat split; vm_compute; reflexivity. Qed.
+Example C20_ex_cxx_bind :
+  let items := [(Some (bs "ay"), GIAxis (typed_axis 2)); (Some (bs "ax"), GIAxis (typed_axis 1)); (Some (bs "wl"), GIWorld def_world)] in
+  let g := set_gr_axes (Some (bs " ax  ay")) def_graph in
+  (fst (graph_bind g (mkgx items [] [] false)) = 1
+   /\ map fst (gx_axes (snd (graph_bind g (mkgx items [] [] false)))) = [Some (bs "ax"); Some (bs "ay")]
+   /\ fst (graph_bind (set_gr_axes (Some (bs "no")) def_graph) (mkgx items [] [] false)) = - MissingData).
+Proof. repeat split; vm_compute; reflexivity. Qed.
+Example C20_ex_layout :
+  layout_set def_layout (Some (bs "NAME")) (Some (SText (Some (bs "la")) no_torc)) = (SOk, mklay (Some (bs "la")) None)
+  /\ layout_set (mklay (Some (bs "la")) (Some (bs "f"))) (Some (bs "alias")) None = (SOk, mklay None (Some (bs "f")))
+  /\ fst (layout_set def_layout (Some (bs "nosuch")) None) = SFail BadArgument
+  /\ lay_src_ok (XText (Some (bs "la")) no_torc).
+Proof. repeat split; vm_compute; reflexivity. Qed.
+
 Print Assumptions C20_set_refines.
 Print Assumptions C20_history_refines.
 Print Assumptions C20_set_get.
@@ -278,3 +341,12 @@ Print Assumptions C20_cxx_assign.
 Print Assumptions C20_inv_cxx_new.
 Print Assumptions C20_inv_cxx_axis.
 Print Assumptions C20_cxx_new_defaults.
+Print Assumptions C20_cxx_step_refines.
+Print Assumptions C20_cxx_construct_inv.
+Print Assumptions C20_cxx_axis_ctor_props.
+Print Assumptions C20_cxx_world_ctor_props.
+Print Assumptions C20_cxx_direct_setters.
+Print Assumptions C20_cxx_named_object_source.
+Print Assumptions C20_cxx_bind_failure.
+Print Assumptions C20_cxx_bind_axes_named.
+Print Assumptions C20_layout_step_refines.
